@@ -73,6 +73,15 @@ REF = {
 }
 
 
+def _may_raise(f):
+    f.may_raise = True
+    return f
+
+
+for _k in ("'only-in' in Type.string", "field_contains(r, Type.string, ['only-in-m'])", "Type.string == 'only-in-m'"):
+    REF[_k] = _may_raise(REF[_k])
+
+
 def run_case(path, sel_obj, nrec, written=None, ref=None):
     """-> case dict for Trace_Filter"""
     from flow.record import RecordReader
@@ -126,8 +135,13 @@ def run_case(path, sel_obj, nrec, written=None, ref=None):
         i = rid(r)
         recs.append({"id": i, "inline": i in inline, "after": after.get(i, False), "pure": pure.get(i, True), "stable": stable.get(i, True)})
     ref_ok = True
-    if ref is not None and written is not None and end_inline == "end":
-        ref_ok = inline == [i for i, v in written if ref(v)]
+    if ref is not None and written is not None:
+        # a selector whose meaning is known independently: exactly those records, and no error (typed matchers may
+        # legitimately raise on an unset text field: those two are only compared when iteration ends normally)
+        if getattr(ref, "may_raise", False) and end_inline != "end":
+            ref_ok = True
+        else:
+            ref_ok = end_inline == "end" and inline == [i for i, v in written if ref(v)]
     return {"recs": recs, "ref_ok": ref_ok, "end_inline": end_inline, "end_after": end_after, "values_equal": inline_obs == after_obs or end_inline != "end" or end_after != "end",
             "n_all": len(allrecs)}
 
@@ -227,6 +241,43 @@ def run(tier):
                     cases.append(c)
                     metas.append((aname, fname, s, q))
                     ctx.case((aname, fname, s, q))
+    # readers opened through a URL that carries adapter options in its query string (the selector must survive that)
+    from flow.record import RecordDescriptor as _RD
+
+    DQ = _RD("t/query", [("varint", "n"), ("string", "q")])
+    for aname, wurl, rurl in (("stream?query", "stream://" + os.path.join(tmp, "q.records"), "stream://" + os.path.join(tmp, "q.records") + "?unusedarg=1"),
+                              ("json?query", "jsonfile://" + os.path.join(tmp, "q.json"), "jsonfile://" + os.path.join(tmp, "q.json") + "?unusedarg=1"),
+                              ("sqlite?query", "sqlite://" + os.path.join(tmp, "q.db"), "sqlite://" + os.path.join(tmp, "q.db") + "?batch_size=5"),
+                              ("csv?query", "csvfile://" + os.path.join(tmp, "q.csv"), "csvfile://" + os.path.join(tmp, "q.csv") + "?unusedarg=1")):
+        with RecordWriter(wurl) as w:
+            for i in range(1, 7):
+                w.write(DQ(i, "a" if i % 2 else "x", _generated=gen.GEN))
+        for s in ("r.q == 'a'", "r.n in [1, 2, 5]", "not r.q == 'a'") if not aname.startswith("csv") else ("r.q == 'a'", "r.n in ['1', '2', '5']"):
+            for fname, mk in (("text", lambda s: s), ("selector", Selector), ("compiled", CompiledSelector)):
+                c = run_case(rurl, mk(s), 6)
+                c["adapter"], c["form"] = aname, fname
+                cases.append(c)
+                metas.append((aname, fname, s, 0))
+                ctx.case((aname, fname, s))
+    # records that are EQUAL apart from the fields configured to be ignored in comparisons, filtered on such a field while
+    # that configuration is active: the answer belongs to the record at hand, not to one that merely compares equal to it
+    from flow.record.base import ignore_fields_for_comparison
+
+    DI = _RD("t/ign", [("varint", "n"), ("string", "s"), ("string", "same")])
+    pi = os.path.join(tmp, "ign.records")
+    with RecordWriter(pi) as w:
+        for i in range(1, 9):
+            w.write(DI(i, "a" if i in (1, 4, 5, 8) else "b", "same", _generated=gen.GEN, _source="hostA" if i % 3 else "hostB"))
+    with ignore_fields_for_comparison({"n", "s", "_source", "_generated"}):
+        for s in ("r.s == 'a'", "r._source == 'hostB'", "r.s == 'a' and r._source == 'hostA'", "r.n in [2, 3, 4]"):
+            for fname, mk in (("text", lambda s: s), ("selector", Selector), ("compiled", CompiledSelector)):
+                ref = {"r.s == 'a'": lambda v: v["s"] == "a", "r.n in [2, 3, 4]": lambda v: v["n"] in (2, 3, 4)}.get(s)
+                wr = [(i, {"n": i, "s": "a" if i in (1, 4, 5, 8) else "b"}) for i in range(1, 9)]
+                c = run_case(pi, mk(s), 8, wr if ref else None, ref)
+                c["adapter"], c["form"] = "stream+ignore-setting", fname
+                cases.append(c)
+                metas.append(("stream+ignore-setting", fname, s, 0))
+                ctx.case(("ignore-setting", fname, s))
     # hand-made CSV input with RAGGED rows (fewer cells than the header, an empty line): a missing trailing cell is an unset field
     ragged = os.path.join(tmp, "ragged.csv")
     with open(ragged, "w", newline="") as f:
